@@ -430,3 +430,107 @@ def init_rule(P, E, prefixes=None):
     if n == 0:
         r.error("INIT: no table entry in scope")
     return r
+
+
+# --------------------------------------------------------------------------- WIRE: the public method hands its arguments on unchanged
+NARROWING = ("std::ops::Index::index", "std::ops::IndexMut::index_mut", "core::slice::<impl [T]>::get", "core::slice::<impl [T]>::split_first",
+             "core::slice::<impl [T]>::split_last", "core::slice::<impl [T]>::first", "core::slice::<impl [T]>::last", "std::iter::Iterator::skip",
+             "std::iter::Iterator::take", "std::iter::Iterator::step_by", "std::iter::Iterator::filter", "std::iter::Iterator::rev",
+             "std::vec::Vec::truncate", "std::vec::Vec::pop", "std::vec::Vec::remove", "std::vec::Vec::reverse", "core::slice::<impl [T]>::reverse")
+
+
+def wire_rule(P, E, H, scope=None):
+    """`source.op(a, b)` is `Op::new(a, b).execute(source.clone())`: the method passes ITS parameters, each one unchanged and in order, to
+    the operator's constructor, runs the operator on a clone of ITSELF, and returns that; the constructor puts every parameter into the
+    operator value (through FunctionWrapper::new / to_vec / clone), none dropped, no sub-slice / reversed / truncated copy of a list of inputs.
+    (Everything else is checked on `execute` and on what the struct's fields hold.)"""
+    r = RuleResult("WIRE", "operator methods pass their parameters unchanged to Op::new and run Op::execute on a clone of self; Op::new keeps every parameter")
+    n = 0
+
+    def flows(b, op, depth=0, seen=None, calls=None):
+        """constructor parameters an operand derives from (through calls' arguments, aggregates, closures' captures)"""
+        seen = seen if seen is not None else set()
+        out = set()
+        if depth > 8 or not isinstance(op, dict) or op.get("k") not in ("copy", "move"):
+            return out
+        for t in b.operand_prov(op):
+            if (t, depth > 0) in seen:
+                continue
+            seen.add((t, depth > 0))
+            if t[0] == "param":
+                out.add(t[1])
+            elif t[0] == "agg":
+                rv = b.blocks[t[1][0]]["stmts"][t[1][1]]["rv"]
+                for o in rv.get("ops", []):
+                    out |= flows(b, o, depth + 1, seen, calls)
+            elif t[0] == "ret":
+                k = b.call_at(t[1])
+                if k is not None:
+                    if calls is not None:
+                        calls.add(k.path)
+                    for o in k.args:
+                        out |= flows(b, o, depth + 1, seen, calls)
+        return out
+    for b in sorted(P.orig.values(), key=lambda x: x.nid):
+        if b.kind != "assoc" or not b.nid.startswith("operators::") or b.impl_trait or b.vis != "pub":
+            continue
+        if norm(ty_adt(b.impl_self) or "") != "observable::Observable":
+            continue
+        tr = b.nid
+        if scope is not None and not scope(b.nid.split("::")[1]):
+            continue
+        news = [c for c in b.calls if c.local and c.path.startswith("operators::") and c.path.endswith("::new")]
+        execs = [c for c in b.calls if c.local and c.path.startswith("operators::") and c.path.split("::")[-1] == "execute"]
+        if len(news) != 1 or b.nid.split("::")[1] == "to_vec":
+            continue             # not of the `Op::new(..).execute(self)` family (to_vec returns a future, not an Observable: W rules)
+        n += 1
+        nw = news[0]
+        self_first = not execs            # publish / ref_count / replay: Op::new(self.clone())
+        want = ([1] if self_first else []) + list(range(2, b.argc + 1))
+        got = []
+        for a in nw.args:
+            pv = b.operand_prov(a)
+            got.append(sorted(t[1] for t in pv if t[0] == "param" and not t[2]) if all(t[0] == "param" and not t[2] for t in pv) else None)
+        r.instance((tr, "arguments"), True, "Op::new receives parameters %s" % got)
+        if got != [[i] for i in want]:
+            r.violate((tr, "arguments not passed on unchanged"),
+                      "%s hands Op::new %s instead of its own parameters %s, each unchanged and in order" % (b.nid.split("::")[-1], got, want), body=b, line=nw.line)
+        if execs:
+            ex = execs[0]
+            ok0 = ex.args and all(t[0] == "ret" and t[1] == nw.bb and not t[2] for t in b.operand_prov(ex.args[0]))
+            ok1 = len(ex.args) > 1 and all(t[0] == "param" and t[1] == 1 for t in b.operand_prov(ex.args[1]))
+            okr = all(t[0] == "ret" and t[1] == ex.bb and not t[2] for t in b.local_prov(0))
+            if not (ok0 and ok1 and okr) or len(execs) != 1:
+                r.violate((tr, "operator not run on self"),
+                          "%s does not return Op::execute(the operator it just built, a clone of self)" % b.nid.split("::")[-1], body=b, line=ex.line)
+        # the constructor
+        nbs = [x for x in P.orig.values() if x.nid == nw.path]
+        if len(nbs) != 1:
+            continue
+        nb = nbs[0]
+        aggs = [(i, st) for i in sorted(nb.reach) for st in nb.blocks[i]["stmts"]
+                if st["k"] == "assign" and st["lhs"] == [0] and st["rv"]["k"] == "agg" and st["rv"].get("ak") == "adt"]
+        if len(aggs) != 1:
+            r.instance((nw.path, "constructor"), False, "not decided: %d aggregates returned" % len(aggs))
+            continue
+        calls = set()
+        kept = set()
+        for o in aggs[0][1]["rv"]["ops"]:
+            kept |= flows(nb, o, calls=calls)
+        r.instance((nw.path, "constructor"), True, "keeps parameters %s via %s" % (sorted(kept), sorted(c.split("::")[-1] for c in calls)))
+        missing = [i for i in range(1, nb.argc + 1) if i not in kept]
+        if missing:
+            r.violate((nw.path, "constructor drops a parameter"),
+                      "%s does not put its parameter(s) %s into the operator it builds: what the caller passed is ignored"
+                      % (nw.path.split("operators::")[-1], [nb.locals[i].get("name") or i for i in missing]), body=nb)
+        for k in nb.calls:          # narrowing applied to (something derived from) a parameter anywhere in the constructor
+            if k.path in NARROWING and k.args and any(t[0] == "param" for t in nb.operand_prov(k.args[0])):
+                calls.add(k.path)
+        bad = sorted(c for c in calls if c in NARROWING)
+        if bad:
+            r.violate((nw.path, "constructor narrows a parameter"),
+                      "%s stores only part / a re-ordered copy of a parameter (%s): inputs the caller passed are dropped or permuted"
+                      % (nw.path.split("operators::")[-1], ", ".join(x.split("::")[-1] for x in bad)), body=nb)
+    if n < 45 and scope is None:
+        r.error("WIRE: only %d operator methods of the Op::new(..).execute(self) family found (floor 45)" % n)
+    return r
